@@ -361,13 +361,16 @@ def manager_step(F, ob, cfg):
     before = state(lm)
     op = cfg["op"]
     if op == "set":
-        case = F.choice("case", ["new", "existing", "none_key", "wrong_dims", "not_pointcloud"])
-        if case == "existing" and not names:
+        case = F.choice("case", ["new", "existing", "none_key", "wrong_dims", "not_pointcloud", "existing_wrong_dims"])
+        if case in ("existing", "existing_wrong_dims") and not names:
             case = "new"
         key = {"new": [x for x in NAMES if x not in names][0] if len(names) < 4 else names[0],
                "existing": names[0] if names else None, "none_key": None,
-               "wrong_dims": "w", "not_pointcloud": "q"}[case]
-        vdims = dims if case != "wrong_dims" else 5 - dims
+               "wrong_dims": "w", "not_pointcloud": "q"}.get(case)
+        if case == "existing_wrong_dims":
+            # replacing ANY existing group (first, middle, last) by a value of the other dimensionality
+            key = names[F.choice("which", list(range(len(names))))]
+        vdims = dims if case not in ("wrong_dims", "existing_wrong_dims") else 5 - dims
         val = K.mk_shape(F, LM_CLASSES[F.choice("vcls", [0, 1, 2])], "v", vdims, npts=3) if case != "not_pointcloud" else np.zeros((3, dims))
         try:
             lm[key] = val
@@ -375,11 +378,15 @@ def manager_step(F, ob, cfg):
             if not isinstance(e, ValueError):
                 # only a value that is no shape at all may be refused with another exception type
                 ob.true("set.refusal_type", case == "not_pointcloud")
-            must_fail = case in ("none_key", "not_pointcloud") or (case == "wrong_dims" and len(names) > 0)
+            must_fail = (case in ("none_key", "not_pointcloud") or (case == "wrong_dims" and len(names) > 0)
+                         or case == "existing_wrong_dims")
             ob.true("set.refused_only_when_documented", must_fail)
             same_state(F, ob, "set.refused.unchanged", lm, before)
             return
-        ob.true("set.accepted_when_valid", case in ("new", "existing") or (case == "wrong_dims" and not names))
+        # (replacing the ONLY group by a value of another dimensionality keeps the manager uniform: the property
+        # allows accepting it; with other groups present it must be refused)
+        ob.true("set.accepted_when_valid", case in ("new", "existing") or (case == "wrong_dims" and not names)
+                or (case == "existing_wrong_dims" and len(names) == 1))
         exp = names if key in names else names + [key]
         _manager_invariants(F, ob, "set.post", lm, exp)
         ob.true("set.stored_is_copy", lm[key] is not val)
